@@ -361,3 +361,30 @@ Definition shape_ok (cs : code_shape) : bool :=
      | Some SADecide, Some SANothing, Some SAError => true
      | _, _, _ => false
      end.
+
+(* ---------------------------------------------------------------- observables used in the theorem statements *)
+Definition is_begin (e : ev) : bool := match e with EReq (QBegin _) _ => true | _ => false end.
+Definition is_commit (e : ev) : bool := match e with EReq (QCommit _) _ => true | _ => false end.
+Definition is_rollback (e : ev) : bool := match e with EReq (QRollback _) _ => true | _ => false end.
+Definition n_begins (t : list ev) : nat := List.length (filter is_begin t).
+Definition n_commits (t : list ev) : nat := List.length (filter is_commit t).
+Definition n_rollbacks (t : list ev) : nat := List.length (filter is_rollback t).
+(* replies to the commit/rollback requests, in order; xids those requests name *)
+Definition sp_replies (t : list ev) : list reply :=
+  flat_map (fun e => match e with EReq (QCommit _) r | EReq (QRollback _) r => [r] | _ => [] end) t.
+Definition sp_xids (t : list ev) : list N :=
+  flat_map (fun e => match e with EReq (QCommit x) _ | EReq (QRollback x) _ => [x] | _ => [] end) t.
+Definition diverged (t : list ev) : bool :=
+  existsb (fun e => match e with EDiverge => true | _ => false end) t.
+(* this call's own begin was acknowledged *)
+Definition began (id : N) (t : list ev) : bool := existsb (ev_eqb (EReq (QBegin id) ROk)) t.
+Definition entered (t : list ev) : bool :=
+  existsb (fun e => match e with EEnter _ _ _ _ => true | _ => false end) t.
+Definition acked (r : reply) : bool := match r with ROk | RFailed => true | _ => false end.
+Definition leaf (m : mode) (id : N) (out : outcome) : scope := Scope m id true [] out.
+Definition sp_n (cf : config) (out : outcome) : nat :=
+  if out_ok out then cf_commit_retry cf else cf_rollback_retry cf.
+(* the coordinator never answers a commit/rollback with ResultCode = Failed
+   (complement of the finding predicate tm.second-phase.failed-result) *)
+Definition never_failed (w : world) : bool :=
+  forallb (fun r => negb (reply_eqb r RFailed)) (w_script w) && negb (reply_eqb (w_default w) RFailed).
